@@ -2,7 +2,7 @@
 //! preimage (if any), the serialisation, the preimage of a fresh from_bytes(to_bytes()) copy and the three
 //! memoised hashes (hook `verif_hash_cache`, --cfg bsv_verif) are reported.  Format: see coq/Run/Exec_C04.v.
 use crate::util::*;
-use bsv::{Script, SigHash, Transaction, TxIn, TxOut};
+use bsv::{PrivateKey, PublicKey, Script, SigHash, Signature, SigningHash, Transaction, TxIn, TxOut, ECDSA};
 use std::convert::TryFrom;
 
 fn ck(b: &[u8]) -> String {
@@ -28,6 +28,41 @@ enum Op {
     Lock(u32),
     Clone,
     Sig(SigHash, usize, Script, u64),
+    Sign(bool, SigHash, usize, Script, u64), // true = sign_with_k
+    VerC(u32),
+    LockC(u32),
+    Ins(Vec<TxIn>),
+    Outs(Vec<TxOut>),
+    HashIn(SigHash),
+    GetOutpoints,
+}
+
+const KEY: [u8; 32] = [
+    0xe8, 0xf3, 0x2e, 0x72, 0x3d, 0xec, 0xf4, 0x05, 0x1a, 0xef, 0xac, 0x8e, 0x2c, 0x93, 0xc9, 0xc5, 0xb2, 0x14, 0x31, 0x38, 0x17, 0xcd, 0xb0, 0x1a, 0x14, 0x94, 0xb9,
+    0x17, 0xc8, 0x43, 0x6b, 0x35,
+];
+
+fn flag_of(s: &str) -> Option<SigHash> {
+    let fl: u64 = num(s)?;
+    if fl > 255 {
+        return None;
+    }
+    SigHash::try_from(fl as u8).ok()
+}
+
+fn parse_elems<T>(body: &str, n: usize, pe: fn(&[&str]) -> Option<T>) -> Option<Vec<T>> {
+    let mut v = Vec::new();
+    if body.is_empty() {
+        return Some(v);
+    }
+    for e in body.split('/') {
+        let f: Vec<&str> = e.split(',').collect();
+        if f.len() != n {
+            return None;
+        }
+        v.push(pe(&f)?);
+    }
+    Some(v)
 }
 
 fn num<T: std::str::FromStr>(s: &str) -> Option<T> {
@@ -62,6 +97,14 @@ fn parse_op(s: &str) -> Option<Op> {
         ("sv", 2) => Op::Ver(num(f[1])?),
         ("sl", 2) => Op::Lock(num(f[1])?),
         ("cl", 1) => Op::Clone,
+        ("svc", 2) => Op::VerC(num(f[1])?),
+        ("slc", 2) => Op::LockC(num(f[1])?),
+        ("sg", 5) => Op::Sign(false, flag_of(f[1])?, num::<u64>(f[2])? as usize, Script::from_bytes(&expand(f[3])?).ok()?, num(f[4])?),
+        ("sk", 5) => Op::Sign(true, flag_of(f[1])?, num::<u64>(f[2])? as usize, Script::from_bytes(&expand(f[3])?).ok()?, num(f[4])?),
+        ("ais", 2) => Op::Ins(parse_elems(f[1], 4, parse_in)?),
+        ("aos", 2) => Op::Outs(parse_elems(f[1], 2, parse_out)?),
+        ("hi", 2) => Op::HashIn(flag_of(f[1])?),
+        ("go", 1) => Op::GetOutpoints,
         ("sh", 5) => {
             let fl: u64 = num(f[1])?;
             if fl > 255 {
@@ -104,7 +147,48 @@ pub fn run(op: &str, args: &[String]) -> Option<String> {
         let mut pre = "n".to_string();
         let mut fresh = "n".to_string();
         let mut sig_args = None;
+        let mut sign_args = None;
+        let mut hash_in = None;
         match o {
+            Op::VerC(v) => {
+                let c = tx.set_version(v);
+                tx = c;
+            }
+            Op::LockC(v) => {
+                let c = tx.set_nlocktime(v);
+                tx = c;
+            }
+            Op::Ins(v) => tx.add_inputs(v),
+            Op::Outs(v) => tx.add_outputs(v),
+            Op::GetOutpoints => {
+                let _ = tx.get_outpoints();
+            }
+            Op::HashIn(flag) => {
+                pre = ck(&tx.hash_inputs(flag));
+                hash_in = Some(flag);
+            }
+            Op::Sign(with_k, flag, idx, sub, value) => {
+                let sk = PrivateKey::from_bytes(&KEY).unwrap();
+                let pk = PublicKey::from_private_key(&sk);
+                let r = if with_k {
+                    let mut kb = KEY;
+                    kb[31] ^= 0x55;
+                    let k = PrivateKey::from_bytes(&kb).unwrap();
+                    tx.sign_with_k(&sk, &k, flag, idx, &sub, value)
+                } else {
+                    tx.sign(&sk, flag, idx, &sub, value)
+                };
+                match r {
+                    Ok(sig) => {
+                        pre = if tx.verify(&pk, &sig) { "v1".into() } else { "v0".into() };
+                        sign_args = Some((Some((sig, pk)), flag, idx, sub, value));
+                    }
+                    Err(_) => {
+                        pre = "E".into();
+                        sign_args = Some((None, flag, idx, sub, value));
+                    }
+                }
+            }
             Op::In(0, _, i) => tx.add_input(&i),
             Op::In(1, _, i) => tx.prepend_input(&i),
             Op::In(2, k, i) => tx.insert_input(k, &i),
@@ -140,6 +224,30 @@ pub fn run(op: &str, args: &[String]) -> Option<String> {
                 Ok(mut t2) => match t2.sighash_preimage(flag, idx, &sub, value) {
                     Ok(p) => ck(&p),
                     Err(_) => "E".into(),
+                },
+                Err(_) => "X".into(),
+            };
+        }
+        if let Some(flag) = hash_in {
+            fresh = match Transaction::from_bytes(&ser) {
+                Ok(mut t2) => ck(&t2.hash_inputs(flag)),
+                Err(_) => "X".into(),
+            };
+        }
+        if let Some((sigpk, flag, idx, sub, value)) = sign_args {
+            fresh = match Transaction::from_bytes(&ser) {
+                Ok(mut t2) => match (t2.sighash_preimage(flag, idx, &sub, value), sigpk) {
+                    (Ok(p), Some((sig, pk))) => {
+                        let sb = sig.to_bytes().unwrap_or_default();
+                        let ok = sb.len() > 1
+                            && match Signature::from_der(&sb[..sb.len() - 1]) {
+                                Ok(s) => ECDSA::verify_digest(&p, &pk, &s, SigningHash::Sha256d).unwrap_or(false),
+                                Err(_) => false,
+                            };
+                        if ok { "v1".into() } else { "v0".into() }
+                    }
+                    (Ok(_), None) => "v0".into(),
+                    (Err(_), _) => "E".into(),
                 },
                 Err(_) => "X".into(),
             };
